@@ -193,6 +193,7 @@ func genC01(c *Ctx) {
 		}
 	}
 	c01Ttml(c)
+	genTtmlOps(c)
 }
 
 // availability sweep for C04
@@ -304,7 +305,12 @@ func genC04(c *Ctx) {
 						want = 2
 					}
 					tie := exact && now == goneAt && ato >= 0 // float tie zone at the gone boundary (DESIGN.md §3.2)
-					if ph != want && !(tie && ph == 2) {
+					// ... and at the availability instant with a non-zero offset: the float subtraction may round up ("425 ms=0")
+					tieAvail := exact && now == av && ato > 0 && ph == 0 && strings.HasPrefix(out, "425 ms=0")
+					if tieAvail {
+						c.Count("avail-tie-zone")
+					}
+					if ph != want && !(tie && ph == 2) && !tieAvail {
 						c.Violate("availability-instant", fmt.Sprintf("k=%d now=%d (available from %d, until %d, ato=%d tsbd=%d): got phase %d want %d",
 							k, now, av, goneAt, ato, tsbd, ph, want), []string{line}, out)
 					}
@@ -328,7 +334,13 @@ func genC04(c *Ctx) {
 				}
 				// below startNr / unknown representation -> 404
 				if snr > 0 && mode != "tlt" {
-					line := fmt.Sprintf("seg %s %s %s %d %d", a.AssetPath, cf.s, rep.ID, snr-1, av+5)
+					// asked at an instant of the stream: before availabilityStartTime every request is answered 425
+					// (an offset larger than the first segment puts av before the stream start)
+					at := av + 5
+					if at < int64(startS)*1000 {
+						at = int64(startS)*1000 + 5
+					}
+					line := fmt.Sprintf("seg %s %s %s %d %d", a.AssetPath, cf.s, rep.ID, snr-1, at)
 					if out := c.Emit(line, true); out != "404" {
 						c.Violate("below-startnr", "segment numbered before startNumber: "+out, []string{line}, nil)
 					}
